@@ -474,9 +474,9 @@ Proof.
   apply wf_upd'; [|exact Hwf]. intros r _. apply copy_cols_id, kept_no_id. reflexivity.
 Qed.
 
-Lemma step_wf keep t now ch f : chain_keeps_key ch -> wf t -> wf (res_tbl (step keep t now ch f)).
+Lemma step_wf keep t now ch f : is_composite f = false -> chain_keeps_key ch -> wf t -> wf (res_tbl (step keep t now ch f)).
 Proof.
-  intros Hk Hwf. unfold step. destruct f.
+  intros Hc Hk Hwf. unfold step. destruct f; try discriminate Hc.
   - now apply save_wf.
   - now apply create_wf.
   - unfold first_or_init. now destruct (first_match t _).
@@ -500,10 +500,11 @@ Definition run_history (keep : bool) (t : table) (hs : list hstep) : table :=
   fold_left (fun t s => res_tbl (step keep t (fst (fst s)) (snd (fst s)) (snd s))) hs t.
 
 Lemma history_wf keep hs : forall t,
-  Forall (fun s : hstep => chain_keeps_key (snd (fst s))) hs -> wf t -> wf (run_history keep t hs).
+  Forall (fun s : hstep => is_composite (snd s) = false /\ chain_keeps_key (snd (fst s))) hs ->
+  wf t -> wf (run_history keep t hs).
 Proof.
   unfold run_history. induction hs as [|s hs IH]; intros t Hk Hwf; cbn; [exact Hwf|].
-  inversion Hk; subst. apply IH; [assumption|]. now apply step_wf.
+  inversion Hk as [|s' hs' [Hc Hch] Hrest]; subst. apply IH; [assumption|]. now apply step_wf.
 Qed.
 
 (* ---- statements used by Props_C16 --------------------------------------------------------- *)
@@ -611,4 +612,58 @@ Proof.
   - destruct (rule_fires ru old && _); [reflexivity|]. now rewrite create_rule_no_err.
   - destruct (email_clash t _ _); [destruct (untargeted_nothing ru tgt); [discriminate|reflexivity]|].
     now rewrite create_rule_no_err.
+Qed.
+
+(* ---- composite primary key ----------------------------------------------------------------------------- *)
+Lemma ckey_refl v : ckey_eq v v = true.
+Proof. unfold ckey_eq. now rewrite Z.eqb_refl, String.eqb_refl. Qed.
+
+Lemma ccreate_other_member t ru v : clookup t v = None ->
+  ccreate t ru v = mk_result v 1 false 1 (t ++ [v]).
+Proof. unfold ccreate. now intros ->. Qed.
+
+Lemma copy_qn_key v r : ckey_eq v (copy_cols [CAge; CEmail] v r) = ckey_eq v r.
+Proof. destruct v, r; reflexivity. Qed.
+
+Lemma copy_qn_idem v r : copy_cols [CAge; CEmail] v (copy_cols [CAge; CEmail] v r) = copy_cols [CAge; CEmail] v r.
+Proof. destruct v, r; reflexivity. Qed.
+
+Lemma copy_qn_self v : copy_cols [CAge; CEmail] v v = v.
+Proof. destruct v; reflexivity. Qed.
+
+Lemma clookup_none_all t v : clookup t v = None -> forall r, In r t -> ckey_eq v r = false.
+Proof. unfold clookup. intros H r Hr. apply (find_none _ _ H r Hr). Qed.
+
+Lemma cupd_idem t v : cupd (cupd t v (copy_cols [CAge; CEmail] v)) v (copy_cols [CAge; CEmail] v)
+                      = cupd t v (copy_cols [CAge; CEmail] v).
+Proof.
+  unfold cupd. rewrite map_map. apply map_ext. intros r. destruct (ckey_eq v r) eqn:E.
+  - now rewrite copy_qn_key, E, copy_qn_idem.
+  - now rewrite E.
+Qed.
+
+Lemma clookup_cupd_some t v r f : clookup t v = Some r -> (forall x, ckey_eq v (f x) = ckey_eq v x) ->
+  exists r', clookup (cupd t v f) v = Some r'.
+Proof.
+  unfold clookup, cupd. intros H Hf. induction t as [|x t IH]; [discriminate|]. cbn in *.
+  destruct (ckey_eq v x) eqn:E.
+  - rewrite Hf, E. eauto.
+  - rewrite E. apply IH, H.
+Qed.
+
+Lemma find_app' {A} (p : A -> bool) l1 l2 :
+  find p (l1 ++ l2) = match find p l1 with Some x => Some x | None => find p l2 end.
+Proof. induction l1 as [|a l1 IH]; cbn; [reflexivity|]. destruct (p a); [reflexivity|exact IH]. Qed.
+
+(* saving twice equals saving once, on a table where only the PAIR (id, region) identifies a row *)
+Lemma csave_twice t v : res_tbl (csave (res_tbl (csave t v)) v) = res_tbl (csave t v).
+Proof.
+  unfold csave at 2 3. destruct (clookup t v) as [r|] eqn:L; cbn [res_tbl].
+  - unfold csave. destruct (clookup_cupd_some t v r (copy_cols [CAge; CEmail] v) L (copy_qn_key v)) as [r' L'].
+    rewrite L'. cbn [res_tbl]. apply cupd_idem.
+  - rewrite (ccreate_other_member t (Some RAll) v L). cbn [res_tbl]. unfold csave.
+    assert (L2 : clookup (t ++ [v]) v = Some v).
+    { unfold clookup. rewrite find_app'. unfold clookup in L. rewrite L. cbn. now rewrite ckey_refl. }
+    rewrite L2. cbn [res_tbl]. unfold cupd. rewrite map_app. cbn [map]. rewrite ckey_refl, copy_qn_self. f_equal.
+    rewrite <- (map_id t) at 2. apply map_ext_in. intros x Hx. now rewrite (clookup_none_all t v L x Hx).
 Qed.
